@@ -145,6 +145,46 @@ def discharge(prog, f, n, kind, pv):
                         return "G9: the bytes were just written by sourcemap's JSON writer (serde_json): always valid UTF-8"
         return None
     if kind == "index":
+        # G8 for slices: `s[C.len()..]` where a dominating guard (directly, or through a crate predicate applied
+        # to what s is computed from) says `s.starts_with(C)`: the prefix is that long and ends on a char boundary
+        rng = hir.peel(n["i"])
+        if rng.get("k") == "Struct" and (rng["res"].get("path") or "").endswith("RangeFrom"):
+            import re as _re
+
+            lens = [x for x in hir.walk(rng) if hir.is_call(x) and (hir.callee_name(x) or x.get("method")) == "len"]
+            start = [fl["e"] for fl in rng["fields"] if fl["name"] == "start"]
+            if len(lens) == 1 and start and hir.peel(start[0]) is hir.peel(lens[0]):
+                cst = hir.def_path_of(hir.peel_transparent(hir.call_args(lens[0])[0])) or hir.place(hir.call_args(lens[0])[0])
+                strip = lambda t: _re.sub(r"#\d+", "", t or "")
+                base_txt = strip(hir.describe(hir.peel_transparent(n["x"])))
+                for c_ in f.conds_at(n):
+                    if c_["t"] != "bool" or c_["v"] is not True:
+                        continue
+                    for e_ in [hir.peel(x) for x in T._conjuncts(c_["e"])]:
+                        cands = []
+                        if hir.is_call(e_) and (hir.callee_name(e_) or e_.get("method")) == "starts_with":
+                            cands.append((e_, {}))
+                        h_ = prog.resolve_local(e_) if hir.is_call(e_) and e_.get("callee") else None
+                        if h_ is not None and h_.body is not None and (h_.rec.get("ret") or "") == "bool":
+                            rs_ = return_exprs(h_.body)
+                            if len(rs_) == 1:
+                                ren = {}
+                                for i_, p_ in enumerate(h_.rec.get("params", [])):
+                                    bs_ = hir.pat_bindings(p_["pat"])
+                                    if bs_ and i_ < len(hir.call_args(e_)):
+                                        ren[bs_[0]["name"]] = strip(hir.describe(hir.peel_transparent(hir.call_args(e_)[i_])))
+                                for x in T._conjuncts(rs_[0]):
+                                    x = hir.peel(x)
+                                    if hir.is_call(x) and (hir.callee_name(x) or x.get("method")) == "starts_with":
+                                        cands.append((x, ren))
+                        for sw, ren in cands:
+                            a_ = hir.call_args(sw)
+                            recv_txt = strip(hir.describe(hir.peel_transparent(a_[0])))
+                            for pn_, at_ in ren.items():
+                                recv_txt = _re.sub(r"\b%s\b" % _re.escape(pn_), at_, recv_txt)
+                            other = hir.def_path_of(hir.peel_transparent(a_[1])) or hir.place(a_[1])
+                            if recv_txt == base_txt and other is not None and other == cst:
+                                return "G8: starts_with(%s) holds for the sliced text, so [len(%s)..] is in range and on a char boundary" % (str(cst).split("::")[-1], str(cst).split("::")[-1])
         base = hir.place(n["x"])
         idx = hir.lit_value(n["i"])
         if base is None or not isinstance(idx, int):
@@ -687,7 +727,7 @@ def rule_loops(check):
                     aty = core_type(hir.peel(a).get("ty") or "")
                     if not (aty.startswith("swc_ecma_ast::") or aty.startswith("swc_ecma_visit::swc_ecma_ast::")):
                         continue
-                    os_ = pv.origins(f, a)
+                    os_ = pv.origins_at(f, a, n)
                     if os_ and all(r[0] == "param" and r[1] == f.def_path and len([q for q in p if q != "[]" or True]) > 0 for r, p in os_):
                         dec = True
                 if not dec:
